@@ -12,7 +12,7 @@
 (* over every series in the bound and checks that they end in the           *)
 (* definitions, plus the algebraic laws the property lists.                 *)
 (***************************************************************************)
-EXTENDS Stats, TLC
+EXTENDS Stats, TLC, CutIdx
 
 CONSTANT MaxLen
 CONSTANT Elem          \* alphabet incl. NULL
@@ -209,8 +209,7 @@ CutOne(x, b, right, bounds) ==
          THEN \* open outer bounds: label k covers the k-th gap of  -inf | b[1] | ... | b[m] | +inf
               IF right THEN Cardinality({k \in 1..Len(b) : b[k] < x})
               ELSE Cardinality({k \in 1..Len(b) : b[k] <= x})
-         ELSE LET hits == {k \in 1..(Len(b) - 1) :
-                             IF right THEN b[k] < x /\ x <= b[k + 1] ELSE b[k] <= x /\ x < b[k + 1]}
+         ELSE LET hits == {k \in 1..(Len(b) - 1) : InBin(b, k, x, right)}        \* CutIdx.tla (CutProof.tla: any length)
               IN  IF hits = {} THEN -1 ELSE (CHOOSE k \in hits : TRUE) - 1
 \* the label series may itself hold a null (label index nulllab, -1 for none): a value in that bin
 \* gets the null label - which is a result, not an error
@@ -226,8 +225,7 @@ Ascending(b) == \A i \in 1..(Len(b) - 1) : b[i] < b[i + 1]
 \* C14: for ascending edges at most one interval contains a value
 UniqueBin(b) ==
     Ascending(b) => \A x \in Elem \ {NULL}, right \in BOOLEAN :
-        Cardinality({k \in 1..(Len(b) - 1) :
-                        IF right THEN b[k] < x /\ x <= b[k + 1] ELSE b[k] <= x /\ x < b[k + 1]}) <= 1
+        Cardinality({k \in 1..(Len(b) - 1) : InBin(b, k, x, right)}) <= 1
 \* C14: with open outer bounds every non-null value receives a label
 OpenBoundsTotal(b) ==
     \A x \in Elem \ {NULL}, right \in BOOLEAN :
